@@ -342,6 +342,8 @@ pub fn run_target<T>(
     T: ZerokitMerkleTree<Hasher = PoseidonHash>,
     T::Proof: ZerokitMerkleProof<Hasher = PoseidonHash, Index = u8> + ProofBuild,
 {
+    // "pm-ls" etc. are the persistent backend under another storage configuration: same backend for the judge
+    let (target, be) = (target, target.split('-').next().unwrap_or(target));
     let mut tree: Option<T> = None;
     let mut d = 0usize;
     let mut n = 0usize;
@@ -359,7 +361,7 @@ pub fn run_target<T>(
                 }
             }
             let r = catch(AssertUnwindSafe(|| mk(d)));
-            let mut ev = json!({"t": "reset", "k": k, "tgt": target, "be": target, "d": d});
+            let mut ev = json!({"t": "reset", "k": k, "tgt": target, "be": be, "d": d});
             match r {
                 Ok(t) => {
                     let obs = catch(AssertUnwindSafe(|| if d <= 5 { observe_small(&t, d, it, &[]) } else { observe_sparse(&t, d, &touched, it) }));
@@ -382,7 +384,7 @@ pub fn run_target<T>(
             touched_by(op, t.leaves_set(), &mut touched, 1usize << d);
         }
         let r = catch(AssertUnwindSafe(|| apply(t, op, mk, d)));
-        let mut ev = json!({"t": "op", "k": k, "tgt": target, "be": target, "d": d, "op": op});
+        let mut ev = json!({"t": "op", "k": k, "tgt": target, "be": be, "d": d, "op": op});
         match r {
             Ok(Ok(())) => ev["res"] = json!("ok"),
             Ok(Err(e)) => {
@@ -415,4 +417,12 @@ pub fn mk_optimal(d: usize) -> OptimalMerkleTree<PoseidonHash> {
 #[cfg(feature = "pmtree")]
 pub fn mk_pm(d: usize) -> rln::pm_tree_adapter::PmTree {
     <rln::pm_tree_adapter::PmTree as ZerokitMerkleTree>::default(d).unwrap()
+}
+
+/// the persistent backend under a non-default storage configuration (LowSpace mode, small cache, frequent flushes)
+#[cfg(feature = "pmtree")]
+pub fn mk_pm_lowspace(d: usize) -> rln::pm_tree_adapter::PmTree {
+    use std::str::FromStr;
+    let cfg = rln::pm_tree_adapter::PmtreeConfig::from_str(r#"{"mode":"LowSpace","cache_capacity":100000,"flush_every_ms":50}"#).unwrap();
+    <rln::pm_tree_adapter::PmTree as ZerokitMerkleTree>::new(d, <PoseidonHash as zerokit_utils::Hasher>::default_leaf(), cfg).unwrap()
 }
